@@ -1301,6 +1301,31 @@ func (fv *FV) specCall(env *Env, c *SCall) Term {
 			fv.sfail("bag(s) or bag(s, lo, hi)")
 		}
 		return fv.bagTerm(env.st, a[0], lo, hi)
+	case "abag", "bagstep":
+		// abag(A, lo, hi): the multiset of A[lo..hi) for a ghost array A (snap(s): absolute positions), the very term
+		// bag(s, lo', hi') denotes for the slice over that array. bagstep(A, lo, h) is `true` and records the
+		// defining equation of the range multiset at h (abag(A, lo, h) is abag(A, lo, h-1) plus A[h-1] when lo < h);
+		// the ghost assert or lemma hint it occurs in assumes the recorded instance (trusted, listed).
+		need(3)
+		a := args()
+		is, es := arraySorts(a[0].Sort)
+		st0, _ := a[0].T.(*specType)
+		if is != sInt || st0 == nil || st0.elem == nil {
+			fv.sfail("%s: a ghost array (snap(s)) expected", c.Fn)
+		}
+		name, bs := fv.bagDecl(es)
+		bagAt := func(hi string) string { return app(name, a[0].S, a[1].S, hi) }
+		if c.Fn == "abag" {
+			return Term{S: bagAt(a[2].S), Sort: bs, T: &specType{sort: bs, elem: st0.elem}}
+		}
+		if env.qdepth != 0 {
+			fv.sfail("bagstep under a quantifier")
+		}
+		prev := bagAt(app("-", a[2].S, "1"))
+		last := sel(a[0].S, app("-", a[2].S, "1"))
+		fv.pendingFacts = append(fv.pendingFacts, implies(app("<", a[1].S, a[2].S), eq(bagAt(a[2].S), sto(prev, last, app("+", sel(prev, last), "1")))))
+		fv.assumptions["multisets: bagstep(A, lo, h) instances of the defining equation of a range multiset (the range up to h is the range up to h-1 plus the element at h-1) are assumed where a contract names them"] = true
+		return Term{S: "true", Sort: sBool}
 	case "bagadd":
 		need(2)
 		a := args()
@@ -1758,6 +1783,13 @@ func (fv *FV) bagTerm(st *State, s Term, lo, hi string) Term {
 	}
 	es := fv.sortOf(et)
 	key, _ := fv.elemComp(et)
+	name, bs := fv.bagDecl(es)
+	a := sel(fv.heapGet(st, key), "(sbase "+s.S+")")
+	off := "(soff " + s.S + ")"
+	return Term{S: app(name, a, app("+", off, lo), app("+", off, hi)), Sort: bs, T: &specType{sort: bs, elem: et}}
+}
+
+func (fv *FV) bagDecl(es string) (string, string) {
 	name := "bagof$" + cleanName(es)
 	bs := arr(es, sInt)
 	if !fv.declared[name] {
@@ -1767,9 +1799,7 @@ func (fv *FV) bagTerm(st *State, s Term, lo, hi string) Term {
 		fv.assumptions["multisets: bag() is an uninterpreted function; the engine emits ground instances of four multiset lemmas at the statements that need them (element store = point update of the bag of the slice's window; exchange of two elements keeps it; append adds the appended elements; copy transfers the bag; a range and the same range without its last element differ by that element). Quantified multiset axioms over arrays made unrelated queries diverge and are not used."] = true
 		fv.bagSorts[es] = true
 	}
-	a := sel(fv.heapGet(st, key), "(sbase "+s.S+")")
-	off := "(soff " + s.S + ")"
-	return Term{S: app(name, a, app("+", off, lo), app("+", off, hi)), Sort: bs, T: &specType{sort: bs, elem: et}}
+	return name, bs
 }
 
 func (fv *FV) inTerm(st *State, x, m Term) Term {
